@@ -469,6 +469,33 @@ class WithNew{base}:
 
 
 @icontract.invariant(consistent)
+class Resettable{base}:
+    def __init__(self, x=1):
+        HUB.body("init", {{}})
+        self.x = x
+
+    def ok(self):
+        HUB.body("ok", {{}})
+        return True
+
+    def reset(self):
+        """Re-initialises the object: the constructor is entered again while a public method of the object is running."""
+        HUB.body("reset", {{}})
+        self.__init__(5)
+        return self.x
+
+    @property
+    def fresh(self):
+        HUB.body("fresh", {{}})
+        self.__init__(7)
+        return self.x
+
+
+class ResettableChild(Resettable):
+    """The constructor which the class of the instance resolves to is the inherited one."""
+
+
+@icontract.invariant(consistent)
 class Tuple(typing.NamedTuple):
     x: int = 1
 
@@ -508,6 +535,27 @@ def run_constructions(w) -> None:
                     w.violation("C10/re-entrant-call-checked", "{}{}: construction {} with events {} (expected {}), then ok() with events {} (expected {}): "
                                 "the call which the invariant makes on its own object is a re-entry and is skipped".format(
                                     cname, " on DBC" if dbc else "", outcome, built, want_built, called, want_called), {"construction": cname})
+            for cname in ("Resettable", "ResettableChild"):
+                if cname == "ResettableChild" and not dbc:
+                    continue  # (contract inheritance needs DBC)
+                obj = getattr(mod, cname)()
+                for op, want in (("reset", [("inv", "inv"), ("body", "ok"), ("body", "reset"), ("body", "init"), ("inv", "inv"), ("body", "ok")]),
+                                 ("fresh", [("inv", "inv"), ("body", "ok"), ("body", "fresh"), ("body", "init"), ("inv", "inv"), ("body", "ok")])):
+                    hub.reset()
+                    try:
+                        res = obj.reset() if op == "reset" else obj.fresh
+                        outcome = "returned {!r}".format(res)
+                    except BaseException as err:  # pylint: disable=broad-except
+                        outcome = "raised {}: {}".format(type(err).__name__, str(err)[:100])
+                    got = [(e.kind, e.id) for e in hub.events]
+                    w.count("invocations_judged", 2)
+                    w.count("must_skip_invariants_invocations")
+                    w.count("constructions_judged")
+                    w.case(("re-initialisation", cname, dbc, op))
+                    if not outcome.startswith("returned") or got != want:
+                        w.violation("C10/re-entrant-call-checked", "{}{}.{}: {} with events {} (expected {}): the constructor entered again from a public "
+                                    "member of the same object is a re-entry and is skipped".format(cname, " on DBC" if dbc else "", op, outcome, got, want),
+                                    {"construction": cname + "." + op})
         finally:
             loaded.unload()
 
